@@ -2388,7 +2388,7 @@ def _data(self):
         if data is None:
             data = self._non_tensordict.get("data")
         return data
-    return self._from_tensordict(self._tensordict.data, self._non_tensordict)
+    return self._from_tensordict(self._tensordict.data, dict(self._non_tensordict))
 
 
 def _data_setter(self, new_data):
@@ -2401,7 +2401,7 @@ def _grad(self):
     grad = self._tensordict._grad
     if grad is None:
         return None
-    return self._from_tensordict(self._tensordict.grad, self._non_tensordict)
+    return self._from_tensordict(self._tensordict.grad, dict(self._non_tensordict))
 
 
 def _names_setter(self, names: str) -> None:  # noqa: D417
